@@ -161,6 +161,16 @@ func c04Overlay(r *rand.Rand, docs []map[string]any, app bool) Case {
 	}
 	var got any
 	var fail []string
+	// (the list of layer names is the caller's to sort, reverse or overwrite: the layers are merged in the order they were added)
+	if r != nil && r.Intn(2) == 0 {
+		names := ov.LayerNames()
+		for i, j := 0, len(names)-1; i < j; i, j = i+1, j-1 {
+			names[i], names[j] = names[j], names[i]
+		}
+		if len(names) > 0 {
+			names[0] = "overwritten-by-the-caller"
+		}
+	}
 	if pn := guard(func() { got = nodeToAny(ov.Merged(opts...)) }); pn != "" {
 		fail = append(fail, "panic in Merged: "+pn)
 	}
@@ -245,6 +255,19 @@ func c04Fluent(r *rand.Rand, idx int, docs []map[string]any) Case {
 		fluent.NewConfigHelper[map[string]any]().Add(deepCopy(docs[len(docs)-1])).Save(file)
 		if (idx/8)%3 == 1 { // the accumulated result may be looked at on the way (e.g. to find the file to load next)
 			_ = h.Result()
+		}
+		// a file the decoder rejects (after it has read part of it) is a failed source: the helper reports it its way — it
+		// panics — and a caller that recovers finds the accumulated document as it was
+		if (idx/4)%3 == 0 {
+			badFile := filepath.Join(dir, fmt.Sprintf("rejected%d.yaml", idx))
+			_ = os.WriteFile(badFile, []byte("rejected-file-key: 1\na:\n  rejected-nested: 1\nsection:\n  dup: 1\n  dup: 2\n"), 0o644)
+			before := nodeToAny(dom.Builder().FromMap(deepCopy(normGeneric(*h.Result())).(map[string]any)))
+			pnBad := guard(func() { h.Load(badFile) })
+			_ = os.Remove(badFile)
+			after := nodeToAny(dom.Builder().FromMap(deepCopy(normGeneric(*h.Result())).(map[string]any)))
+			if pnBad != "" && !reflect.DeepEqual(before, after) {
+				fail = append(fail, fmt.Sprintf("a Load that failed (%s) left its mark on the accumulated document", pnBad))
+			}
 		}
 		res := h.Load(file).Result()
 		got = normGeneric(*res)
